@@ -210,10 +210,20 @@ fn gen_wcfg(rng: &mut Rng) -> J {
         let tgt = if rng.chance(1, 25) { json!({"t":"none"}) } else if rng.chance(2, 5) { pres("class") } else { rng.pick(&tg).clone() };
         let mut ca = sub(rng, &SATTRS, 2, 6);
         if rng.chance(4, 5) { ca.push("class".into()); ca = sorted(ca); }
+        // a third of the modify parts are about classes: class is writable and many classes are listed
+        let classy = rng.chance(1, 3);
+        let (mut pa, mut ra) = (sub(rng, &MATTRS, 0, 4), sub(rng, &MATTRS, 0, 4));
+        if classy {
+            pa.push("class".into());
+            ra.push("class".into());
+            pa = sorted(pa);
+            ra = sorted(ra);
+        }
+        let (clo, chi) = if classy { (4, 8) } else { (0, 4) };
         acps.push(json!({"en": true, "rk": rk, "rg": rg, "tgt": tgt,
             "srch": rng.chance(1, 2), "sa": sub(rng, &SATTRS, 1, 5),
-            "mod": rng.chance(7, 10), "pa": sub(rng, &MATTRS, 0, 4), "ra": sub(rng, &MATTRS, 0, 4),
-            "pc": sub(rng, &MCLASSES, 0, 4), "rc": sub(rng, &MCLASSES, 0, 4),
+            "mod": classy || rng.chance(7, 10), "pa": pa, "ra": ra,
+            "pc": sub(rng, &MCLASSES, clo, chi), "rc": sub(rng, &MCLASSES, clo, chi),
             "cre": rng.chance(1, 2), "ca": ca, "cc": sub(rng, &CCLASSES, 1, 5),
             "del": rng.chance(2, 5)}));
     }
@@ -306,6 +316,51 @@ fn gen_create(rng: &mut Rng, acps: &[J]) -> J {
     json!({"id": id, "attrs": attrs})
 }
 
+/// Configuration 0 of every run: members of e20 hold a profile that grants EVERYTHING (all attributes and
+/// classes present/removed, create of any class, delete) on every entry, so that the built-in rules
+/// (scope, protected classes and entries, tombstones, class purge) are the only thing left to refuse.
+fn grant_all_scenario(rng: &mut Rng) -> (J, Vec<J>) {
+    let mut attrs: Vec<&str> = MATTRS.to_vec();
+    attrs.extend(["uuid", "memberof"]);
+    let cfg = json!({"acps": [
+        {"en": true, "rk": "group", "rg": ["e20"], "tgt": pres("class"), "srch": true, "sa": ["class", "description", "name", "uuid"],
+         "mod": true, "pa": attrs, "ra": attrs, "pc": MCLASSES, "rc": MCLASSES,
+         "cre": true, "ca": ["class", "name", "uuid", "description", "displayname", "member"], "cc": CCLASSES, "del": true}],
+        "ents": {"e1": {"description": ["d1"], "displayname": ["x1"], "entry_managed_by": []},
+                 "e2": {"description": ["d1"], "displayname": [], "entry_managed_by": ["e21"]},
+                 "e3": {"description": ["d2"], "displayname": ["x3"], "entry_managed_by": []},
+                 "e6": {"description": [], "entry_managed_by": ["e10"]},
+                 "e50": {"sync_yield_authority": ["description"]}}});
+    let names = ["n1", "n2", "n3", "n6", "n7", "n8", "n9", "nb1", "n4", "n5"];
+    let mut ops = Vec::new();
+    let rw = json!({"u":"e10","scope":"rw"});
+    for ml in modlists() {
+        for n in names {
+            ops.push(json!({"op": "modify", "idd": rw, "f": eq("name", n), "ml": ml}));
+        }
+    }
+    for n in names {
+        ops.push(json!({"op": "delete", "idd": rw, "f": eq("name", n)}));
+        ops.push(json!({"op": "revive", "idd": rw, "f": eq("name", n)}));
+    }
+    for (id, cls) in [("e60", vec!["object", "extensibleobject"]), ("e60", vec!["object", "extensibleobject", "group"]),
+                      ("e60", vec!["object", "extensibleobject", "system"]), ("e60", vec!["object", "extensibleobject", "recycled"]),
+                      ("e60", vec!["object", "extensibleobject", "sync_object"]), ("e60", vec!["object", "group", "dyngroup"]),
+                      ("b2", vec!["object", "extensibleobject"]), ("e60", vec!["object", "extensibleobject", "tombstone"])] {
+        ops.push(json!({"op": "create", "idd": rw, "new": {"id": id, "attrs": {"class": cls, "name": [format!("n{id}")], "uuid": [id], "description": ["d1"]}}}));
+    }
+    // the same requests from identities that may never write
+    let n = ops.len();
+    for idd in [json!({"u":"e10","scope":"ro"}), json!({"u":"e10","scope":"sync"}), json!({"synch":"e50","scope":"sync"}), json!({"synch":"e50","scope":"rw"})] {
+        for _ in 0..40 {
+            let mut l = ops[rng.below(n as u64) as usize].clone();
+            l["idd"] = idd.clone();
+            ops.push(l);
+        }
+    }
+    (cfg, ops)
+}
+
 pub fn run(o: &Opts) -> i32 {
     let out = o.str("out", "/verif/work/C24/obs.ndjson");
     let rt = runtime();
@@ -327,6 +382,7 @@ pub fn run(o: &Opts) -> i32 {
             }
         } else {
             let (mls, fs, ids) = (modlists(), wfilters(), wids());
+            script.push(grant_all_scenario(&mut rng));
             for _ in 0..o.u64("configs", 30) {
                 let cfg = gen_wcfg(&mut rng);
                 let acps = cfg["acps"].as_array().cloned().unwrap_or_default();
